@@ -17,7 +17,8 @@ for M in "$@"; do
   demo() { # run the demonstration in demo_dir
     mkdir -p $W/$DIR
     for f in $D/*_test.go; do cp $f $W/$DIR/zz_$(basename $f); done
-    case "$RUN" in *"./adapters/"*|*" ./"*) (cd $W && eval "timeout 600 $RUN" >/tmp/val-demo.log 2>&1) ;; *) (cd $W/$DIR && eval "timeout 600 $RUN" >/tmp/val-demo.log 2>&1) ;; esac
+    echo "$RUN" > /tmp/val-run.sh
+    case "$RUN" in *"./adapters/"*|*" ./"*) (cd $W && timeout 600 bash /tmp/val-run.sh >/tmp/val-demo.log 2>&1) ;; *) (cd $W/$DIR && timeout 600 bash /tmp/val-run.sh >/tmp/val-demo.log 2>&1) ;; esac
     rc=$?
     rm -f $W/$DIR/zz_*_test.go
     return $rc
